@@ -540,7 +540,11 @@ func (c *CFG) GuardedBySet(target Loc, pred func(Fact) bool) bool {
 // condition of block b is evaluated: the nearest preceding assignment of errObj in b
 // (or in its chain of unique predecessors).
 func (c *CFG) ErrSource(b *cfg.Block, errObj types.Object) *ast.CallExpr {
+	if errObj == nil || errObj.Type() == nil || errObj.Type().String() != "error" {
+		return nil
+	}
 	info := c.F.Info()
+	start := b
 	seen := map[*cfg.Block]bool{}
 	for b != nil && !seen[b] {
 		seen[b] = true
@@ -576,11 +580,71 @@ func (c *CFG) ErrSource(b *cfg.Block, errObj types.Object) *ast.CallExpr {
 		}
 		ps := c.preds[b]
 		if len(ps) != 1 {
-			return nil
+			return c.reachingErrDef(start, errObj)
 		}
 		b = ps[0]
 	}
 	return nil
+}
+
+// reachingErrDef: the unique assignment of errObj that dominates the end of block b with
+// no other assignment of errObj on any path from it to b.
+func (c *CFG) reachingErrDef(b *cfg.Block, errObj types.Object) *ast.CallExpr {
+	info := c.F.Info()
+	type def struct {
+		loc  Loc
+		call *ast.CallExpr
+	}
+	var defs []def
+	c.F.Walk(func(n ast.Node) bool {
+		as, ok := n.(*ast.AssignStmt)
+		if !ok {
+			return true
+		}
+		for li, l := range as.Lhs {
+			if IsObj(info, l, errObj) {
+				var rhs ast.Expr
+				if len(as.Rhs) == 1 {
+					rhs = as.Rhs[0]
+				} else if li < len(as.Rhs) {
+					rhs = as.Rhs[li]
+				}
+				call, _ := Unparen(rhs).(*ast.CallExpr)
+				defs = append(defs, def{c.LocOf(as), call})
+			}
+		}
+		return true
+	})
+	target := Loc{b, len(b.Nodes) - 1}
+	var best *def
+	for i := range defs {
+		d := &defs[i]
+		if !d.loc.Valid() || !c.Dominates(d.loc, target) {
+			continue
+		}
+		clean := true
+		for j := range defs {
+			o := &defs[j]
+			if o == d || !o.loc.Valid() {
+				continue
+			}
+			r1, _ := c.Reach(d.loc, LocSet(o.loc), ReachOpt{CutLoc: LocSet(target)})
+			r2, _ := c.Reach(o.loc, LocSet(target), ReachOpt{CutLoc: LocSet(d.loc)})
+			if r1 && r2 {
+				clean = false
+			}
+		}
+		if clean {
+			if best != nil {
+				return nil
+			}
+			best = d
+		}
+	}
+	if best == nil {
+		return nil
+	}
+	return best.call
 }
 
 // isNilIdent reports whether e is the predeclared nil.
@@ -911,3 +975,19 @@ func (c *CFG) CountOnPaths(hit func(Loc) bool, returnsOnly bool) (min, max int, 
 
 // Block re-exports the go/cfg block type.
 type Block = cfg.Block
+
+// FirstLocIn returns the location of the first (in source order) located node inside n.
+func (c *CFG) FirstLocIn(n ast.Node) Loc {
+	var out Loc
+	walkOwn(n, func(x ast.Node) bool {
+		if out.Valid() {
+			return false
+		}
+		if l, ok := c.loc[x]; ok {
+			out = l
+			return false
+		}
+		return true
+	})
+	return out
+}
